@@ -1610,6 +1610,37 @@ def _createfunction_post(f, ctx):
     return f(_np([_B[0], _B[1]][: max(1, len(getattr(ctx['r'], 'id_manager').free_betas.names))] if getattr(ctx['r'], 'id_manager', None) is not None else [_B[0]]))
 
 
+_SUB_CACHE = {}
+
+
+def tagging_subclass(C, newname):
+    """A real subclass that redefines the replacement (calls the inherited one and tags the result): the receiver
+    of the 'subclass' form of L2.  None when the replacement is not a plain method of C."""
+    import inspect
+    key = (C, newname)
+    if key not in _SUB_CACHE:
+        raw = inspect.getattr_static(C, newname, None)
+        if not inspect.isfunction(raw):
+            _SUB_CACHE[key] = None
+        else:
+            def ov(self, *a, **k):
+                return ('overridden-in-subclass', getattr(super(_SUB_CACHE[key], self), newname)(*a, **k))
+            ov.__name__ = newname
+            _SUB_CACHE[key] = type(C)('Sub_' + C.__name__, (C,), {newname: ov, '__module__': 'c20_throwaway'})
+    return _SUB_CACHE[key]
+
+
+def _as_subclass(build, newname):
+    def b():
+        ctx = build()
+        S = tagging_subclass(type(ctx['r']), newname)
+        if S is None:
+            raise LookupError('replacement is not a plain method')
+        ctx['r'].__class__ = S
+        return ctx
+    return b
+
+
 def l2_tasks(tier):
     t = [dict(part='L2', group='uncovered', tier=tier)]
     for alph in ([_SEED % 4] if tier == 'quick' else [(_SEED + j) % 4 for j in range(4)]):
@@ -1631,6 +1662,7 @@ def _pair(rec, label, newname, build, call_old, call_new, post, state_of, case, 
             rec.count('l2_engine_runtime_errors')
             if os.environ.get('C20_TRACE'):
                 print('C20_TRACE RuntimeError', label, str(e)[:200], file=sys.__stderr__, flush=True)
+    rec.count('l2_paired_calls')
     bad = compare_sides(old, new, newname)
     both_ran = old['exc'] is None and new['exc'] is None
     substantive = both_ran and (new['result'] is not None or bool(new['files']) or new['state'] is not None)
@@ -1698,15 +1730,16 @@ def l2_run(task, rec, only=None):
             state_of = (lambda c: vars(c['r']))
             for rl, build in r['receivers']:
                 for al, mk in r['argsets']:
-                    forms = ['inst'] + (['class'] if r.get('via_class') else [])
+                    forms = ['inst'] + (['class'] if r.get('via_class') else ['subclass'])
                     for form in forms:
                         label = f'{cqual}.{alias}[{rl};{al};{form}]{AL}'
                         if not want(label):
                             continue
+                        build_f = _as_subclass(build, newname) if form == 'subclass' else build
 
                         def co(c, mk=mk, alias=alias, form=form):
                             a, k = mk(c)
-                            return getattr(c['r'] if form == 'inst' else type(c['r']), alias)(*a, **k)
+                            return getattr(type(c['r']) if form == 'class' else c['r'], alias)(*a, **k)
 
                         if r.get('new_call'):
                             def cn(c, mk=mk, nc=r['new_call']):
@@ -1717,8 +1750,13 @@ def l2_run(task, rec, only=None):
                                 a, k = mk(c)
                                 return getattr(c['r'], newname)(*a, **k)
 
-                        _pair(rec, label, newname, build, co, cn, r.get('post'), state_of,
-                              dict(part='L2', group=group, label=label, alph=_ALPH), f'method:{cqual}.{alias}')
+                        post = r.get('post')
+                        if form == 'subclass' and post is not None:
+                            post = (lambda post: lambda res, c: ('overridden-in-subclass', post(res[1], c))
+                                    if isinstance(res, tuple) and len(res) == 2 and res[0] == 'overridden-in-subclass' else ('not-overridden', post(res, c)))(post)
+                        _pair(rec, label, newname, build_f, co, cn, post, state_of,
+                              dict(part='L2', group=group, label=label, alph=_ALPH),
+                              f'method:{cqual}.{alias}' + (':subclass-redefining-the-replacement' if form == 'subclass' else ''))
         rec.sample(dict(part='L2', group=group))
     elif group == 'expr':
         exprs = sorted({(cm, cq) for (cm, cq, *_rest) in D['pairs']
@@ -1739,28 +1777,32 @@ def l2_run(task, rec, only=None):
                     if (need in ('eval', 'prepared', 'deriv') and cq not in EVALUABLE) or (need == 'deriv' and cq in NO_DERIVATIVES):
                         rec.count('l2_skipped_not_safely_evaluable_in_engine')
                         continue
-                    label = f'{cq}.{alias}[{al}]{AL}'
-                    if not want(label):
-                        continue
+                    for form in (('inst', 'subclass') if need == 'any' else ('inst',)):
+                        label = f'{cq}.{alias}[{al}' + (';subclass' if form == 'subclass' else '') + f']{AL}'
+                        if not want(label):
+                            continue
 
-                    def build(cq=cq, need=need):
-                        e = fx_expr(cq)
-                        if need == 'prepared':
-                            e.prepare(fx_db(), 5)
-                        return dict(r=e)
+                        def build(cq=cq, need=need):
+                            e = fx_expr(cq)
+                            if need == 'prepared':
+                                e.prepare(fx_db(), 5)
+                            return dict(r=e)
 
-                    def co(c, mk=mk, alias=alias):
-                        a, k = mk(c)
-                        return getattr(c['r'], alias)(*a, **k)
+                        if form == 'subclass':
+                            build = _as_subclass(build, newname)
 
-                    def cn(c, mk=mk, newname=newname):
-                        a, k = mk(c)
-                        return getattr(c['r'], newname)(*a, **k)
+                        def co(c, mk=mk, alias=alias):
+                            a, k = mk(c)
+                            return getattr(c['r'], alias)(*a, **k)
 
-                    post = _createfunction_post if alias == 'createFunction' else None
-                    _pair(rec, label, newname, build, co, cn, post, lambda c: vars(c['r']),
-                          dict(part='L2', group='expr', shard=task.get('shard', 0), of=task.get('of', 1), label=label, alph=_ALPH),
-                          f'method:{dqual}.{alias}' + ('' if dqual == cq else ':inherited'))
+                        def cn(c, mk=mk, newname=newname):
+                            a, k = mk(c)
+                            return getattr(c['r'], newname)(*a, **k)
+
+                        post = _createfunction_post if alias == 'createFunction' else None
+                        _pair(rec, label, newname, build, co, cn, post, lambda c: vars(c['r']),
+                              dict(part='L2', group='expr', shard=task.get('shard', 0), of=task.get('of', 1), label=label, alph=_ALPH),
+                              f'method:{dqual}.{alias}' + (':subclass-redefining-the-replacement' if form == 'subclass' else '' if dqual == cq else ':inherited'))
         if mine:
             rec.sample(dict(part='L2', group='expr', classes=[q for _, q in mine][:6]))
     elif group == 'KW':
@@ -1904,6 +1946,7 @@ def l2_keywords(rec, tier, want):
                 for e in (eo, en):
                     if type(e).__name__ == 'RuntimeError':
                         rec.retire = True
+                rec.count('l2_paired_keyword_calls')
                 bad = compare_sides(old_side, new_side, new or old, extra_warn_names=(old,))
                 both = old_side['exc'] is None and new_side['exc'] is None
                 rec.case(('L2KW', label) if both else None, (label, old_side, new_side),
